@@ -33,7 +33,8 @@ pub fn prop() -> Prop {
         "Cases: a valid-by-construction schema (descriptions incl. block strings, @deprecated with/without reason on \
          fields, arguments, input fields and enum values, default values of every kind, interfaces implementing \
          interfaces, unions, @specifiedBy scalars, repeatable directives, optional explicit schema definition with \
-         description, in half of the cases split into type extensions) and the standard full introspection query; in \
+         description, in half of the cases split into type extensions placed anywhere, possibly several per type and \
+         adding interfaces) and the standard full introspection query; in \
          ~40% of the cases additionally the same query with __typename and concrete query-root fields selected. \
          Oracle: expectation computed from the reference schema model (October 2021 section 4 / graphql-js v16), \
          compared after the documented normalisation; no `errors`; concrete root fields absent. Non-trivial: the \
